@@ -249,7 +249,7 @@ def handshake_variant(rng, sc, p_good=0.8):
     return b'X' * 16400, 'oversize'
 
 
-def gen_history(rng, n_steps=8, timers=False, faults=True, p_good=0.85, reactions=True, closes=True):
+def gen_history(rng, n_steps=8, timers=False, faults=True, p_good=0.85, reactions=True, closes=True, key_seed=0):
     """a Scenario with a mixed environment script; always ends with a transport-ending step"""
     poll = rng.choice([1, 2, 5]) if timers else 5
     sc = Scenario([], poll=poll,
@@ -257,6 +257,7 @@ def gen_history(rng, n_steps=8, timers=False, faults=True, p_good=0.85, reaction
                   ptimeout=(rng.choice([0, 0, 3, 6, 10]) if timers else 0),
                   ctimeout=(rng.choice([0, 2, 5, 30]) if timers else 30),
                   autopong=rng.random() < 0.85)
+    sc.key_seed = key_seed
     hs, kind = handshake_variant(rng, sc, p_good)
     pieces = [hs]
     for _ in range(n_steps):
